@@ -315,6 +315,7 @@ type Env struct {
 	specFn string // name of spec function being defined (recursion)
 	oldVars map[string]*SV // variable bindings to use inside old()
 	unfoldDepth int
+	localsFirst bool // loop invariants: a name denotes the current value of the variable (parameters are mutable)
 }
 
 func (e *Env) child() *Env {
@@ -450,6 +451,14 @@ func (e *Env) eval(x Expr) *SV {
 	case *EUnary:
 		v := e.eval(x.X)
 		switch x.Op {
+		case "*":
+			// dereference of a pointer to a non-struct value (e.g. *[]T)
+			pt, ok := v.T.Underlying().(*types.Pointer)
+			if !ok {
+				specFail("cannot dereference %s", v.T)
+			}
+			lv := &LVal{kind: lvHeap, ref: v.S, base: pt.Elem()}
+			return &SV{S: c.loadLV(e.st, lv), T: pt.Elem()}
 		case "!":
 			return e.boolSV(not(v.S))
 		case "-":
@@ -597,6 +606,13 @@ func (c *Ctx) constSV(v constant.Value, t types.Type) *SV {
 }
 
 func (e *Env) ident(name string) *SV {
+	if e.localsFirst && !e.inOld && e.local != nil {
+		if _, isParam := e.oldVars[name]; isParam {
+			if v := e.local(name, e.st); v != nil {
+				return v
+			}
+		}
+	}
 	if v, ok := e.vars[name]; ok {
 		if v.LV != nil {
 			return &SV{S: e.c.loadLV(e.st, v.LV), T: v.LV.typ()}
@@ -846,9 +862,9 @@ func (e *Env) binary(x *EBinary) *SV {
 		res := &SV{T: rt}
 		switch x.Op {
 		case "/":
-			res.S = "(tdiv " + a.S + " " + b.S + ")"
+			res.S = tdivTerm(a.S, b.S)
 		case "%":
-			res.S = "(tmod " + a.S + " " + b.S + ")"
+			res.S = tmodTerm(a.S, b.S)
 		default:
 			res.S = "(" + x.Op + " " + a.S + " " + b.S + ")"
 		}
@@ -1006,6 +1022,9 @@ func (e *Env) call(x *ECall) *SV {
 		return e.boolSV("(> " + arg(0).S + " " + e.old.alloc + ")")
 	case "allocated":
 		return e.boolSV("(and (> " + arg(0).S + " 0) (<= " + arg(0).S + " " + e.st.alloc + "))")
+	case "bit":
+		c.declBits()
+		return e.boolSV("(bits.bit " + arg(0).S + " " + arg(1).S + ")")
 	case "errClass":
 		c.declErrClass()
 		return e.intSV("(ext.errclass " + arg(0).S + ")")
